@@ -69,3 +69,31 @@ for _n, _callee in (("close", "_do_close"), ("rollback", "_do_rollback"), ("comm
        # whatever happens, the transaction is over afterwards
        exc_ensures={"BaseException": ["not self.is_active"]},
        modifies=["self.is_active", "self.connection._transaction", "any._nested_transaction", "self.connection._nested_transaction.is_active"])
+
+# ---- Connection-level entry points: begin / commit / rollback / in_transaction
+CB = "engine/base.py::Connection."
+_pc.CLASSES["RootTx"].methods.update({"__init__": R + "__init__", "commit": TR + "commit#root", "rollback": TR + "rollback#root"})
+fn(CB + "begin", cls="ConnT", props=["C23"], returns="RootTx", consts={"exc.InvalidRequestError": "class"},
+   callees={"RootTransaction": "construct:RootTx"},
+   # a second begin() while a transaction object exists is refused -- there is no implicit nesting
+   raises={"InvalidRequestError": "self._transaction is not None"},
+   may_raise={"BaseException": "self._transaction is None"},
+   ensures=["result is self._transaction and fresh(result)", "result.is_active and result.connection is self"],
+   exc_ensures={"BaseException": ["self._transaction is old(self._transaction)"]},
+   modifies=["self._transaction"])
+fn(CB + "commit", cls="ConnT", props=["C23"], returns="none",
+   requires=["implies(self._transaction is not None, self._transaction.connection is self)"],
+   ensures=["implies(old(self._transaction) is not None, not old(self._transaction).is_active and self._transaction is not old(self._transaction))",
+            "implies(old(self._transaction) is None, self._transaction is None)"],
+   may_raise={"BaseException": "self._transaction is not None"},
+   exc_ensures={"BaseException": ["not old(self._transaction).is_active"]},
+   modifies=["self._transaction", "self._transaction.is_active", "any._nested_transaction", "self._nested_transaction.is_active"])
+fn(CB + "rollback", cls="ConnT", props=["C23"], returns="none",
+   requires=["implies(self._transaction is not None, self._transaction.connection is self)"],
+   ensures=["implies(old(self._transaction) is not None, not old(self._transaction).is_active and self._transaction is not old(self._transaction))",
+            "implies(old(self._transaction) is None, self._transaction is None)"],
+   may_raise={"BaseException": "self._transaction is not None"},
+   exc_ensures={"BaseException": ["not old(self._transaction).is_active"]},
+   modifies=["self._transaction", "self._transaction.is_active", "any._nested_transaction", "self._nested_transaction.is_active"])
+fn(CB + "in_transaction", cls="ConnT", props=["C23"], returns="bool",
+   ensures=["result == (self._transaction is not None and self._transaction.is_active)"], modifies=[])
